@@ -653,6 +653,107 @@ def leg_frontend(ck, fnd, typex, pop, res, pairs, codes):
     return dict(mismatch=mismatch, harness_err=harness_err, dist=dist, programs=n_prog)
 
 
+# ---- leg 3: compiled programs — a definition stays itself inside a Variable, by whichever route it gets there -------------
+RT_KINDS = {
+    # base type, article for the `ist` test, definition, second definition of the same base, setup, value expression, how to print it back
+    "Zahl": dict(base="Zahl", bart="eine", d="Hausnummer", e="Zeiger", setup=[], val="22 als Hausnummer", bval="22",
+                 back="Schreibe ((v als Hausnummer) als Zahl) auf eine Zeile.", bback="Schreibe (v als Zahl) auf eine Zeile.", shown="22", default="(22 als Hausnummer)"),
+    "Text": dict(base="Text", bart="ein", d="Marke", e="Sorte", setup=[], val='"ab" als Marke', bval='"ab"',
+                 back="Schreibe ((v als Marke) als Text) auf eine Zeile.", bback="Schreibe (v als Text) auf eine Zeile.", shown="ab", default='("ab" als Marke)'),
+    "Liste": dict(base="Zahlen Liste", bart="eine", d="Reihe", e="Folge", setup=["Die Zahlen Liste zl ist eine Liste, die aus 1, 2, 3 besteht."], val="zl als Reihe", bval="zl",
+                  back="Schreibe (die Länge von ((v als Reihe) als Zahlen Liste)) auf eine Zeile.", bback="Schreibe (die Länge von (v als Zahlen Liste)) auf eine Zeile.", shown="3", default=None),
+    "Kombination": dict(base="Punkt", bart="ein", d="Stelle", e="Lage", setup=["Der Punkt pk ist Punkt(7, 2)."], val="pk als Stelle", bval="pk",
+                        back="Schreibe (x von ((v als Stelle) als Punkt)) auf eine Zeile.", bback="Schreibe (x von (v als Punkt)) auf eine Zeile.", shown="7", default=None),
+}
+RT_ROUTES = ("cast", "init", "assign", "argument", "field", "field-default", "return", "list-element")
+
+
+def rt_program(kind, route, converse=False):
+    """a definition value (converse: a value of the base type) is put into a Variable by `route`; then the `ist` tests, the cast back,
+    and finally the cast to the other type, which must stop the program"""
+    k = RT_KINDS[kind]
+    acc = "einen" if k["bart"] == "ein" else "eine"
+    L = ['Binde "Duden/Ausgabe" ein.',
+         "Wir nennen die Kombination aus\n\tder Zahl x mit Standardwert 0,\n\tder Zahl y mit Standardwert 0,\neinen Punkt, und erstellen sie so:\n\t\"Punkt(<x>, <y>)\"",
+         "Wir definieren eine %s als %s %s." % (k["d"], acc, k["base"]), "Wir definieren eine %s als %s %s." % (k["e"], acc, k["base"]),
+         "Wir nennen die Kombination aus\n\tder Variable inhalt mit Standardwert 0,\neine Kiste, und erstellen sie so:\n\t\"Kiste mit <inhalt>\""]
+    if route == "field-default":
+        L.append("Wir nennen die Kombination aus\n\tder Variable inhalt mit Standardwert %s,\neine Truhe, und erstellen sie so:\n\t\"eine Truhe\"" % k["default"])
+    src_t = k["base"] if converse else k["d"]
+    L += ["Die Funktion reiche mit dem Parameter w vom Typ Variable, gibt eine Variable zurück, macht:\n\tGib w zurück.\nUnd kann so benutzt werden:\n\t\"reiche <w> durch\"",
+          "Die Funktion verpacke mit dem Parameter w vom Typ %s, gibt eine Variable zurück, macht:\n\tGib w zurück.\nUnd kann so benutzt werden:\n\t\"verpacke <w>\"" % src_t]
+    L += k["setup"]
+    art = "Die" if (converse and k["bart"] == "eine") or not converse else "Der"
+    L.append("%s %s h ist %s." % (art, src_t, k["bval"] if converse else k["val"]))
+    L += {"cast": ["Die Variable v ist h als Variable."],
+          "init": ["Die Variable v ist h."],
+          "assign": ["Die Variable v ist 0.", "Speichere h in v."],
+          "argument": ["Die Variable v ist reiche (h als Variable) durch."],
+          "field": ["Die Kiste ki ist Kiste mit (h als Variable).", "Die Variable v ist inhalt von ki."],
+          "field-default": ["Die Truhe tr ist eine Truhe.", "Die Variable v ist inhalt von tr."],
+          "return": ["Die Variable v ist verpacke h."],
+          "list-element": ["Die Variablen Liste vl ist eine Liste, die aus (h als Variable) besteht.", "Die Variable v ist vl an der Stelle 1."]}[route]
+    for tag, art2, name in (("D", "eine", k["d"]), ("B", k["bart"], k["base"]), ("E", "eine", k["e"])):
+        L.append("Wenn v %s %s ist, dann:\n\tSchreibe \"%s ja\" auf eine Zeile.\nSonst:\n\tSchreibe \"%s nein\" auf eine Zeile." % (art2, name, tag, tag))
+    if converse:
+        L += [k["bback"], k["back"]]
+    else:
+        L += [k["back"], k["bback"]]
+    L.append('Schreibe "NICHT GESTOPPT" auf eine Zeile.')
+    expect = (["D nein", "B ja", "E nein"] if converse else ["D ja", "B nein", "E nein"]) + [k["shown"]]
+    return "\n".join(L) + "\n", expect
+
+
+def leg_runtime(ck, b):
+    ok, lg = b.ensure_native()
+    if not ok:
+        ck.violation("harness-build", "kddp / runtime do not build against /repo: " + lg[-500:], dict(log=lg[-3000:]), no_input=True)
+        return dict(programs=0)
+    root = vlib.scratch()
+    jobs = []
+    for kind, k in RT_KINDS.items():
+        for route in RT_ROUTES:
+            if route == "field-default" and k["default"] is None:
+                continue
+            jobs.append((kind, route, False))
+        for route in ("cast", "init", "return"):
+            jobs.append((kind, route, True))
+
+    def run(job):
+        kind, route, conv = job
+        src, expect = rt_program(kind, route, conv)
+        d = os.path.join(root, "rt_%s_%s_%d" % (kind, route, conv))
+        os.makedirs(d)
+        open(os.path.join(d, "main.ddp"), "w").write(src)
+        r = b.compile(os.path.join(d, "main.ddp"), os.path.join(d, "main.exe"), cwd=d)
+        if r["stage"] != "ok":
+            return job, src, expect, dict(stage=r["stage"], out=r["out"][-800:])
+        rc, so, se = b.run(os.path.join(d, "main.exe"), cwd=d)
+        return job, src, expect, dict(stage="ok", rc=rc, stdout=so.decode("utf-8", "replace").splitlines(), stderr=se.decode("utf-8", "replace")[-200:])
+    bad_build = []
+    for (kind, route, conv), src, expect, r in vlib.pmap(run, jobs):
+        ck.count()
+        what = "%s value of a definition of %s" % ("base" if conv else "definition", kind) if False else ("a %s put into a Variable by route '%s'" % ("value of the base type %s" % kind if conv else "value of a definition of %s" % kind, route))
+        if r["stage"] != "ok":
+            bad_build.append((kind, route, conv, r["out"], src))
+            continue
+        got = r["stdout"]
+        stopped = r["rc"] != 0 and "NICHT GESTOPPT" not in got and "Laufzeitfehler" in r["stderr"]
+        if got[:3] != expect[:3]:
+            ck.violation("variable-identity route=%s kind=%s held=%s tests=%s" % (route, kind, "base" if conv else "definition", ",".join(got[:3])),
+                         "%s answers the `ist` tests for (its definition, the base type, another definition of the base) with %s; a definition is opaque, expected %s" % (what, got[:3], expect[:3]),
+                         dict(program=src, stdout=got, exit=r["rc"], expected=expect, how="kddp kompiliere main.ddp; link; run"))
+        elif got[3:4] != expect[3:4] or not stopped:
+            ck.violation("variable-conversion route=%s kind=%s held=%s stopped=%d" % (route, kind, "base" if conv else "definition", stopped),
+                         "%s: converting back to the held type must yield %s and converting to the %s must stop with a Laufzeitfehler; observed output %s, exit %s" % (what, expect[3], "definition" if conv else "base type", got[3:], r["rc"]),
+                         dict(program=src, stdout=got, exit=r["rc"], stderr=r["stderr"], expected=expect, how="kddp kompiliere main.ddp; link; run"))
+        else:
+            ck.nontrivial(("rt", kind, route, conv))
+    if bad_build:
+        ck.broken_obligation("runtime leg: %d generated programs do not compile, e.g. %s/%s: %s" % (len(bad_build), bad_build[0][0], bad_build[0][1], bad_build[0][3][-300:]), bad_build[0][4])
+    return dict(programs=len(jobs), kinds=list(RT_KINDS), routes=list(RT_ROUTES))
+
+
 def main():
     ck = Check(PID, "proof")
     b = Build()
@@ -717,6 +818,9 @@ def main():
     fr = leg_frontend(ck, fnd, typex, pop, res, pairs, codes)
     log("[c14] frontend leg: %d programs in %.1fs" % (fr["programs"], time.time() - t1))
     fnd.flush(ck)
+    t2 = time.time()
+    rt = leg_runtime(ck, b)
+    log("[c14] runtime leg (definition inside a Variable): %d programs in %.1fs" % (rt["programs"], time.time() - t2))
     if fr["harness_err"]:
         a, v, line, src = fr["harness_err"][0]
         ck.broken_obligation("frontend leg: %d generated well-formed programs drew a diagnostic other than the tested one, e.g. required=%s supplied=%s -> %s" % (len(fr["harness_err"]), a, v, line), src)
@@ -730,6 +834,8 @@ def main():
         exhaustive=True,
         exhaustive_legs=["ddptypes predicates: all types of the depth-%d closure (+twins, +extras), all ordered pairs for Equal/DeepEqual, all transitivity triples" % (3 if ck.quick else 4),
                          "frontend positions: all ordered pairs of source-expressible types of depth <= %s (+ void as supplied type)" % ("2" if ck.quick else "3 incl. twin aliases/definitions")],
+        runtime_leg=dict(rt, note="compiled and run: a value of a definition (and, conversely, of its base type) reaches a Variable by explicit cast, initialiser, assignment, argument, field, field default, return and list element; "
+                                   "the `ist` tests, the cast back and the Laufzeitfehler of the cast to the other type are judged by opacity (C14_def_opaque): the dynamic type is the static type at the conversion"),
         frontend_programs=fr["programs"], frontend_pairs_exhaustive=len(full) * (len(full) + 1), frontend_pairs_sampled=len(pairs) - len(full) * (len(full) + 1),
         frontend_verdicts={p: dict(accept=v[0], reject=v[1]) for p, v in fr["dist"].items()},
         positions_note="the property's sentence 'initialisation and assignment accept exactly ...' is about the positions init and assign (judged by the full oracle); cast/refcast are judged by its conversion sentence; "
